@@ -7,6 +7,8 @@ package c18
 //	rcfg <shared|default>   a fresh runner (shared: periodic.New with a 1 s tick; default: udp/client.DefaultConfig.PeriodicRunner)
 //	reg <k>                 register a function that answers "yes" until told otherwise
 //	fin <k>                 function k answers "no" at its next call
+//	nest <k> <j>            function k registers a new function j during its next call (a connection dialled, a server
+//	                        started from inside a housekeeping callback)
 //	tick                    one period elapses (virtual time)
 //
 // Output: the functions called since the previous line, ascending: `calls k1 k2 …`, or `none`.
@@ -33,6 +35,7 @@ func runRunnerCase(t *testing.T, kind string, ops [][]string) []string {
 		var mu sync.Mutex
 		var calls []int
 		finishing := map[int]bool{}
+		nest := map[int]int{}
 		stop := make(chan struct{})
 		var register func(f func(now time.Time) bool)
 		period := time.Second
@@ -57,17 +60,38 @@ func runRunnerCase(t *testing.T, kind string, ops [][]string) []string {
 			return "calls " + strings.Join(s, " ")
 		}
 		var all []int
+		var mk func(k int) func(time.Time) bool
+		mk = func(k int) func(time.Time) bool {
+			return func(time.Time) bool {
+				mu.Lock()
+				calls = append(calls, k)
+				j, nested := nest[k]
+				delete(nest, k)
+				if nested {
+					all = append(all, j)
+				}
+				cont := !finishing[k]
+				mu.Unlock()
+				if nested {
+					register(mk(j))
+				}
+				return cont
+			}
+		}
 		for i, f := range ops {
 			switch f[0] {
 			case "reg":
 				k, _ := strconv.Atoi(f[1])
+				mu.Lock()
 				all = append(all, k)
-				register(func(time.Time) bool {
-					mu.Lock()
-					defer mu.Unlock()
-					calls = append(calls, k)
-					return !finishing[k]
-				})
+				mu.Unlock()
+				register(mk(k))
+			case "nest":
+				k, _ := strconv.Atoi(f[1])
+				j, _ := strconv.Atoi(f[2])
+				mu.Lock()
+				nest[k] = j
+				mu.Unlock()
 			case "fin":
 				k, _ := strconv.Atoi(f[1])
 				mu.Lock()
@@ -113,7 +137,7 @@ func TestC18Runner(t *testing.T) {
 		case len(f) == 1 && f[0] == "end":
 			flush(w)
 			fmt.Fprintln(w, "end")
-		case kind != "" && (len(f) == 2 && (f[0] == "reg" || f[0] == "fin") || len(f) == 1 && f[0] == "tick"):
+		case kind != "" && (len(f) == 2 && (f[0] == "reg" || f[0] == "fin") || len(f) == 3 && f[0] == "nest" || len(f) == 1 && f[0] == "tick"):
 			ops = append(ops, f)
 		default:
 			flush(w)
